@@ -10,6 +10,8 @@
   the journal code reads (type, id, len(Name), len(Data), serialised size), its xxh3 hash without version (opaque
   128-bit token), what the diff + TL transport turns it into (`t`), and what `compactJournalEvent` turns it into
   (`c`, `none` = discard). `equalWithoutVersionJournalEvent(a, b)` is `a.k = b.k`.
+  Modelling `t` and `c` as table columns assumes they are functions of the event (no dependence on Go map order, time,
+  or the replica); the harness verifies this on the real code for every content it generates.
 -/
 import SH.Gen.C20
 
